@@ -49,6 +49,7 @@ def check(ctx):
         check_fields(ctx, tu, info)
         check_clone(ctx, tu, info)
         check_queue_ctors(ctx, tu)
+        check_value_state(ctx, tu)
     ctx.require_min('C10.I', 12)
     ctx.require_min('C10.F', 7)
     ctx.require_min('C10.S', 3)
@@ -109,8 +110,40 @@ def check_fields(ctx, tu, info):
                                 okf = True
                     if not okf:
                         missing.append(fld)
+                # alternatively the body swaps with the source (the members were value-initialised first)
+                sw = [n for n in f.calls() if (f.callee(n) or {}).get('name') == 'swap' and any(root_var_id(path(f, a)) == other for a in f.call_args(n))
+                      and (f.nodes[n].get('obj') is None or path(f, f.nodes[n]['obj']) == ('this',))]
+                if missing and len(sw) == 1 and f.pos_postdominates(f.pos(sw[0]), (f.entry, 0)):
+                    missing = []
                 ctx.ob('C10.F', f, 'move construction takes every state field (%s)' % ', '.join(fields), not missing,
                        detail='not taken from the source: %s' % ', '.join(missing), key_detail='move-ctor fields')
+    # delegating move constructors transfer through swap(other); derived queue classes hand copy/move on to the base
+    for f in tu.fns:
+        if f.cls in STATE_FIELDS and f.kind == 'ctor' and f.d.get('ctor') == 'move' and f.d.get('delegating'):
+            other = f.params[0]['id']
+            sw = [n for n in f.calls() if (f.callee(n) or {}).get('name') == 'swap' and any(root_var_id(path(f, a)) == other for a in f.call_args(n))
+                  and (f.nodes[n].get('obj') is None or path(f, f.nodes[n]['obj']) == ('this',))]
+            ctx.ob('C10.F', f, 'the delegating move constructor takes the source\'s state through swap(other) on every path',
+                   len(sw) == 1 and f.pos_postdominates(f.pos(sw[0]), (f.entry, 0)), key_detail='move-ctor swap')
+        if f.cls in ('EventQueueBase', 'HeterEventQueueBase') and f.name == 'operator=' and f.d.get('assign') in ('copy', 'move'):
+            other = f.params[0]['id']
+            base = [n for n in f.calls() if (f.callee(n) or {}).get('name') == 'operator=' and (f.callee(n) or {}).get('assign') == f.d.get('assign')
+                    and 'DispatcherBase' in (f.callee_key(n) or '')]
+            ok = len(base) == 1 and any(root_var_id(path(f, a)) == other for a in f.call_args(base[0])) and f.pos_postdominates(f.pos(base[0]), (f.entry, 0))
+            if ok and f.d.get('assign') == 'move':
+                ok = all(f.nodes[f.strip(a)].get('vk') == 'x' for a in f.call_args(base[0]))
+            ctx.ob('C10.F', f, 'queue %s assignment hands the listeners on to the dispatcher base\'s %s assignment' % (f.d['assign'], f.d['assign']), ok,
+                   key_detail='queue assign base')
+        if f.cls in ('EventQueueBase', 'HeterEventQueueBase') and f.kind == 'ctor' and f.d.get('ctor') in ('copy', 'move'):
+            other = f.params[0]['id']
+            bi = [i for i in f.d.get('inits', []) if i.get('kind') == 'base' and i.get('n')]
+            ok = len(bi) == 1
+            if ok:
+                n = f.strip_all_casts(bi[0]['n'])
+                cal = f.callee(n) if f.is_construct(n) else None
+                ok = bool(cal) and cal.get('ctor') == f.d.get('ctor') and any(root_var_id(path(f, a)) == other for a in f.nodes[n].get('args', []))
+            ctx.ob('C10.F', f, 'queue %s construction builds the dispatcher base with the %s constructor from the source' % (f.d['ctor'], f.d['ctor']), ok,
+                   key_detail='queue ctor base')
     # dispatcher copy assignment: the whole map is replaced
     for cls in ('EventDispatcherBase', 'HeterEventDispatcherBase'):
         for f in tu.fns:
@@ -150,7 +183,49 @@ def check_fields(ctx, tu, info):
                    key_detail='self-assignment guard')
 
 
+def check_clone_shape(ctx, tu, maxlen=4, rule='C10.S'):
+    """A12 on cloneFrom: the copy is a well-formed list of as many *new* nodes as the source has, all with one fresh non-removed
+    generation, and the source is untouched."""
+    from .. import shape as S
+    done = 0
+    for f in tu.fns_named('CallbackListBase::cloneFrom'):
+        if done >= 3:
+            break
+        done += 1
+        pp = S.PointerProgram(tu)
+        fails = {}
+        try:
+            for n in range(0, maxlen + 1):
+                src, nodes = S.build_list(n)
+                before = [(x.previous, x.next, x.counter) for x in nodes]
+                dst = S.ListObj()
+                dst.gen = 7
+                pp.call(f, dst, [S.Ref(src, 'head')])
+                seq = S.sequence(dst)
+                wf = S.well_formed(dst)
+                if isinstance(seq, str) or wf is not None or len(seq) != n:
+                    fails.setdefault('the copy is a well-formed list of the same length', 'length %d: %s / %s' % (n, seq if isinstance(seq, str) else [x.name for x in seq], wf))
+                    continue
+                if any(x in nodes for x in seq):
+                    fails.setdefault('the copy shares no node with the source', 'length %d' % n)
+                gens = {x.counter for x in seq}
+                if n and (len(gens) != 1 or 0 in gens or list(gens)[0] > dst.gen):
+                    fails.setdefault('all cloned nodes carry one fresh generation that is not above the list\'s counter', 'length %d: generations %s, counter %d' % (n, sorted(gens), dst.gen))
+                if [(x.previous, x.next, x.counter) for x in nodes] != before or S.sequence(src) != nodes:
+                    fails.setdefault('the source list is untouched', 'length %d' % n)
+        except S.Unsupported as e:
+            raise AnalysisBroken('C10.S: cloneFrom uses a construct outside the pointer-program fragment: %s' % e)
+        except S.NullDeref as e:
+            fails['no null dereference'] = str(e)
+        for law in ('the copy is a well-formed list of the same length', 'the copy shares no node with the source',
+                    'all cloned nodes carry one fresh generation that is not above the list\'s counter', 'the source list is untouched'):
+            ctx.ob(rule, f, 'cloneFrom: %s (source lengths 0..%d)' % (law, maxlen), law not in fails, detail='fails for %s' % fails.get(law), key_detail='clone shape ' + law[:40])
+        if 'no null dereference' in fails:
+            ctx.ob(rule, f, 'cloneFrom dereferences no null pointer', False, detail=fails['no null dereference'], key_detail='clone null')
+
+
 def check_clone(ctx, tu, info):
+    check_clone_shape(ctx, tu, 6 if ctx.tier == 'thorough' else 4)
     for f in tu.fns_named('CallbackListBase::cloneFrom'):
         src = f.params[0]['id'] if f.params else None
         makes = [n for n in f.calls() if (f.callee_key(n) or '') == 'std::make_shared' and 'Node' in tu.tstr(f.nodes[n].get('t'))]
@@ -226,6 +301,35 @@ def check_clone(ctx, tu, info):
                 a = f.call_args(mk[0])
                 ok = len(a) == 1 and path(f, a[0]) == ('this',)
             ctx.ob('C10.S', f, 'doClone builds a new list from *this', ok)
+
+
+VALUE_STATE = {
+    # class key -> {field: substring its type must contain, held by value}
+    'MixinFilter': {'filterList': 'CallbackList<'},
+    'MixinHeterFilter': {'filterList': 'HeterCallbackList<'},
+    'internal_::EventDispatcherBase': {'eventCallbackListMap': 'map<'},
+    'internal_::HeterEventDispatcherBase': {'eventCallbackListMap': 'map<'},
+}
+
+
+def check_value_state(ctx, tu):
+    """Listener and filter containers are data members held by value, so that the implicit / memberwise copy operations of the
+    enclosing class produce independent objects. A pointer-like member would be copied shallowly (both objects then share filters)."""
+    for key, fields in VALUE_STATE.items():
+        for c in tu.classes_by_key.get(key, []) + tu.classes_by_key.get(key.split('::')[-1], []):
+            fl = {x['name']: x for x in c['fields']}
+            for fld, want in fields.items():
+                if fld not in fl:
+                    ctx.ob('C10.S', key.split('::')[-1], '%s holds its %s as a data member' % (key.split('::')[-1], fld), False, tu=tu,
+                           detail='field not found in %s' % c['q'][:100], key_detail='value state ' + fld)
+                    continue
+                t = tu.type(fl[fld]['t'])
+                s_ = t['s'] if t else ''
+                byvalue = bool(t) and not t['ref'] and t.get('ptr') is None and not s_.startswith(('std::shared_ptr<', 'std::unique_ptr<', 'std::weak_ptr<')) and want in s_
+                copy_user = c['special'].get('copy_ctor') == 'user' and c['special'].get('copy_assign') == 'user'
+                ctx.ob('C10.S', key.split('::')[-1], '%s::%s is held by value (or the class deep-copies it itself)' % (key.split('::')[-1], fld), byvalue or copy_user, tu=tu,
+                       detail='%s has type %s and the copy operations are %s/%s: a copy of the object shares the container with its source'
+                              % (fld, s_[:100], c['special'].get('copy_ctor'), c['special'].get('copy_assign')), key_detail='value state ' + fld)
 
 
 def check_queue_ctors(ctx, tu):
